@@ -550,6 +550,10 @@ RCP<const Basic> sign(const RCP<const Basic> &arg)
                 return mul(minus_one, I);
             }
         }
+        if (is_a_Complex(*arg)) {
+            // sign(z) = z / |z|
+            return div(arg, abs(arg));
+        }
     }
     if (is_a<Constant>(*arg)) {
         if (eq(*arg, *pi) or eq(*arg, *E) or eq(*arg, *EulerGamma)
@@ -562,8 +566,11 @@ RCP<const Basic> sign(const RCP<const Basic> &arg)
     if (is_a<Mul>(*arg)) {
         RCP<const Basic> s = sign(down_cast<const Mul &>(*arg).get_coef());
         map_basic_basic dict = down_cast<const Mul &>(*arg).get_dict();
-        return mul(s,
-                   make_rcp<const Sign>(Mul::from_dict(one, std::move(dict))));
+        RCP<const Basic> rest = Mul::from_dict(one, std::move(dict));
+        if (is_a<Mul>(*rest))
+            return mul(s, make_rcp<const Sign>(rest));
+        // a single remaining factor (e.g. a constant) may evaluate further
+        return mul(s, sign(rest));
     }
     return make_rcp<const Sign>(arg);
 }
